@@ -40,6 +40,12 @@ def run_property(pid, root, tier, overrides=None, quiet=False, write_evidence=Tr
                 ctx.extra["refactoring_fuzz_on_current_tree"] = rf
                 for r in rf["not_silent"]:
                     ctx.info.append("refactor-fuzz: behaviour-preserving variant %s of %s::%s is not silent (%s) - checker brittleness, not a property verdict" % (r[2], r[0], r[1], r[3]))
+            co = thorough.run_corpora(root, pid)
+            ctx.extra["sub_agent_corpora_on_current_tree"] = co
+            for sid in co.get("seeded_changes_not_reported", []):
+                ctx.info.append("corpus: seeded change %s is not reported on the current tree - checker weakness, not a property verdict" % sid)
+            for sid, why in co.get("refactorings_not_silent", []):
+                ctx.info.append("corpus: behaviour-preserving refactoring %s is not silent (%s) - checker brittleness, not a property verdict" % (sid, why))
             for r in st["failed"]:
                 ctx.info.append("selftest: variant %s not classified as expected (%s) - checker weakness, not a property verdict" % (r[0], r[2]))
     code = ctx.finish(
